@@ -78,7 +78,57 @@ func loadMutants(verif, prop string) []Mutant {
 		out = append(out, Mutant{Name: "seeded/" + filepath.Base(filepath.Dir(m)), Patch: filepath.Join(filepath.Dir(m), "patch.diff"),
 			Expect: meta.Expect, ExpectCaught: meta.ExpectCaught, Note: meta.Note})
 	}
+	// behaviour-preserving refactorings from sub-agents: must stay silent for every
+	// property whose packages they touch (unless a residual alarm is recorded in meta.json)
+	rmetas, _ := filepath.Glob(filepath.Join(verif, "refactors", "*", "meta.json"))
+	sort.Strings(rmetas)
+	for _, m := range rmetas {
+		b, err := os.ReadFile(m)
+		if err != nil {
+			continue
+		}
+		var meta struct {
+			Residual map[string]string `json:"residual_alarms"` // property -> reason (documented idiom limits)
+		}
+		json.Unmarshal(b, &meta)
+		patch := filepath.Join(filepath.Dir(m), "patch.diff")
+		pb, err := os.ReadFile(patch)
+		if err != nil {
+			continue
+		}
+		touches := false
+		for _, line := range strings.Split(string(pb), "\n") {
+			if strings.HasPrefix(line, "+++ b/") {
+				dir := strings.SplitN(strings.TrimPrefix(line, "+++ b/"), "/", 2)[0]
+				for _, pr := range propsOfPackage[dir] {
+					if pr == prop {
+						touches = true
+					}
+				}
+			}
+		}
+		if !touches {
+			continue
+		}
+		f := false
+		mu := Mutant{Name: "refactor/" + filepath.Base(filepath.Dir(m)), Patch: patch, ExpectCaught: &f, Note: "behaviour-preserving refactoring: the check must stay silent"}
+		if why, ok := meta.Residual[prop]; ok {
+			tr := true
+			mu.ExpectCaught = &tr
+			mu.Note = "documented residual alarm on a behaviour-preserving refactoring: " + why
+		}
+		out = append(out, mu)
+	}
 	return out
+}
+
+// propsOfPackage: which properties' rules read a package directory.
+var propsOfPackage = map[string][]string{
+	"cache": {"C06", "C08", "C09"}, "heapq": {"C05", "C06", "C08"}, "queue": {"C07"},
+	"mlink": {"C10"}, "ring": {"C10"}, "stack": {"C10"},
+	"slice": {"C07", "C11", "C12", "C13", "C17"}, "mdiff": {"C11", "C13", "C14"},
+	"shell": {"C15", "C16"}, "mapset": {"C18", "C19"}, "distinct": {"C19"},
+	"mbits": {"C20"}, "mstr": {"C20"}, "stree": {"C01", "C02", "C03", "C04"}, "omap": {"C04"},
 }
 
 func copyTree(src, dst string) error {
@@ -129,7 +179,7 @@ func runMutants(c *Ctx, pd *propDef, repo, verif string) {
 		}(i, m)
 	}
 	wg.Wait()
-	applied, caught, stale, missed := 0, 0, 0, 0
+	applied, caught, stale, missed, twins := 0, 0, 0, 0, 0
 	for _, r := range results {
 		switch r.Status {
 		case "caught":
@@ -137,10 +187,16 @@ func runMutants(c *Ctx, pd *propDef, repo, verif string) {
 			caught++
 		case "expected-miss":
 			applied++
+		case "silent-twin":
+			twins++
 		case "missed", "unexpectedly-caught":
 			applied++
 			missed++
-			c.bad("MUTANT", r.Name, 0, "checker self-test: "+r.Status+": "+r.Detail)
+			what := "checker self-test: "
+			if strings.HasPrefix(r.Name, "refactor/") {
+				what = "FALSE ALARM on a behaviour-preserving refactoring: "
+			}
+			c.bad("MUTANT", r.Name, 0, what+r.Status+": "+r.Detail)
 		case "stale":
 			stale++
 		default:
@@ -150,6 +206,7 @@ func runMutants(c *Ctx, pd *propDef, repo, verif string) {
 	c.Extra["mutants_applied"] = applied
 	c.Extra["mutants_caught"] = caught
 	c.Extra["mutants_stale"] = stale
+	c.Extra["refactoring_twins_silent"] = twins
 	c.Extra["mutants_missed_unexpectedly"] = missed
 	c.Extra["mutant_results"] = results
 }
@@ -242,6 +299,8 @@ func runOneMutant(exe, repo, verif, prop string, m Mutant) mutantResult {
 		res.Status, res.Detail = "missed", fmt.Sprintf("reported, but not at the expected construct %q: %s", m.Expect, firstLines(text, 4))
 	case exit == 0 && wantCaught:
 		res.Status, res.Detail = "missed", "variant not reported"
+	case exit == 0 && !wantCaught && strings.HasPrefix(m.Name, "refactor/"):
+		res.Status, res.Detail = "silent-twin", m.Note
 	case exit == 0 && !wantCaught:
 		res.Status, res.Detail = "expected-miss", m.Note
 	case exit == 1 && !wantCaught:
